@@ -1,5 +1,6 @@
 -------------------------- MODULE SupportedOpsTrace --------------------------
-(* Code -> spec: each line is one compiled case {t, c: case record, observed: "NPU" | "CPU", unchanged}.
+(* Code -> spec: each line is one compiled case {t, c: case record, observed: "NPU" | "CPU" | "FAIL", unchanged}
+   ("FAIL": the compiler produced no output model for the one-operator network).
    TLC recomputes what the report says about the case (Expect, from the constants parsed out of the report the
    working tree generated) and compares it with where the compiler put the operator. *)
 EXTENDS SupportedOps, Json, IOUtils
@@ -13,6 +14,8 @@ Failures(e) ==
       (IF x = "NPU" /\ e.observed = "CPU" THEN {<<e.t, "SatisfiesButCpu", {}>>} ELSE {})
  \cup (IF x = "CPU" /\ e.observed = "NPU" THEN {<<e.t, "ViolatesButNpu", Failing(e.c)>>} ELSE {})
  \cup (IF e.observed = "CPU" /\ ~e.unchanged THEN {<<e.t, "CpuNotUnchanged", {}>>} ELSE {})
+ \cup (IF x = "NPU" /\ e.observed = "FAIL" THEN {<<e.t, "SatisfiesButFails", {}>>} ELSE {})
+ \cup (IF x = "CPU" /\ e.observed = "FAIL" THEN {<<e.t, "ViolatesButFails", Failing(e.c)>>} ELSE {})
 
 Init == l = 1 /\ viol = {}
 Next == /\ l <= Len(Trace)
